@@ -7,6 +7,7 @@ is used anywhere; time-outs are generous and only decide "no answer at all".
 """
 import json
 import os
+import re
 import select
 import subprocess
 import time
@@ -55,7 +56,9 @@ class Engine:
 
     def send(self, line):
         try:
-            self.p.stdin.write((line + "\n").encode())
+            # "\\xNN" in a generated line stands for the raw byte NN (lines that are not valid UTF-8)
+            raw = re.sub(rb"\\x([0-9a-fA-F]{2})", lambda m: bytes([int(m.group(1), 16)]), line.encode())
+            self.p.stdin.write(raw + b"\n")
             self.p.stdin.flush()
             return True
         except (BrokenPipeError, OSError):
